@@ -2,6 +2,7 @@ SPECIFICATION Spec
 CONSTANTS
   Alphabet = {9, 10, 13, 31, 32, 33, 39, 47, 48, 57, 58, 64, 65, 70, 71, 90, 91, 95, 96, 97, 102, 103, 122, 123, 125, 127, 128, 160, 12287, 12288, 12289, 12351, 65279, 128515}
   N = 3
+  Prefixes <- PrefixesNone
 INVARIANTS Lossless OneEofLast NonEmptyNonBlankStart Emit
 PROPERTIES Progress
 CHECK_DEADLOCK FALSE
